@@ -247,7 +247,7 @@ class ListOf(Ty):
         elem_ty = self.elem
 
         def elem(interp2, idx_term, uid=uid):
-            return make_indexed(interp2, elem_ty, uid, idx_term)
+            return make_indexed(interp2, elem_ty, uid + '[]', (idx_term,))
 
         return SList(n, elem, uid)
 
@@ -284,29 +284,72 @@ class Custom(Ty):
         return self.fn(interp, name)
 
 
-def make_indexed(interp, ty, uid, idx_term):
-    """Element of an SList at a symbolic index: scalar fields become applications of
-    uninterpreted functions to the index, so equal indices give equal elements."""
+def make_indexed(interp, ty, base, idx):
+    """Value of shape ``ty`` at the symbolic index tuple ``idx`` (element of an SList, attribute of an
+    indexed opaque object): scalars become applications of uninterpreted functions named ``base`` to the
+    index, so equal indices give equal values; composite shapes are built field by field."""
     st = interp.st
+    if not isinstance(idx, tuple):
+        idx = (idx,)
+    sorts = [z3.IntSort()] * len(idx)
     if isinstance(ty, _Int):
-        f = z3.Function(uid + '[]', z3.IntSort(), z3.IntSort())
-        t = f(idx_term)
+        t = z3.Function(base, *(sorts + [z3.IntSort()]))(*idx)
         if ty.lo is not None:
             st.assume(t >= ty.lo)
         if ty.hi is not None:
             st.assume(t <= ty.hi)
         return SInt(t)
     if isinstance(ty, _Bool):
-        f = z3.Function(uid + '[]', z3.IntSort(), z3.BoolSort())
-        return SBool(f(idx_term))
+        return SBool(z3.Function(base, *(sorts + [z3.BoolSort()]))(*idx))
     if isinstance(ty, _Str):
-        f = z3.Function(uid + '[]', z3.IntSort(), z3.StringSort())
-        return SStr(f(idx_term))
+        return SStr(z3.Function(base, *(sorts + [z3.StringSort()]))(*idx))
+    if isinstance(ty, Opt):
+        isn = z3.Function(base + '.is_none', *(sorts + [z3.BoolSort()]))(*idx)
+        return SOpt(isn, make_indexed(interp, ty.inner, base, idx))
+    if isinstance(ty, Const):
+        return ty.value
+    if isinstance(ty, OneOf):
+        if len(ty.values) == 1:
+            return ty.values[0]
+        t = z3.Function(base + '.idx', *(sorts + [z3.IntSort()]))(*idx)
+        st.assume(z3.And(t >= 0, t < len(ty.values)))
+        return SChoice(t, ty.values)
+    if isinstance(ty, Involution):
+        raise Unsupported('indexed element of type Involution (use it as an attribute)')
     if isinstance(ty, Iface):
         iface = ty.iface() if isinstance(ty.iface, types.FunctionType) else ty.iface
-        return new_opaque(interp, iface, uid + '[]', index=(idx_term,))
+        return new_opaque(interp, iface, base, index=idx)
     if isinstance(ty, Opaq):
-        return OpaqueVal('%s[%s]' % (uid, z3.simplify(idx_term)))
+        return OpaqueVal('%s(%s)' % (base, ','.join(str(z3.simplify(i)) for i in idx)))
+    if isinstance(ty, Inst):
+        cls = ty.cls
+        if ty.tuple_items is not None:
+            obj = tuple.__new__(cls, [make_indexed(interp, t, '%s[%d]' % (base, i), idx)
+                                      for i, t in enumerate(ty.tuple_items)])
+        elif issubclass(cls, BaseException):
+            obj = cls.__new__(cls)
+        else:
+            obj = object.__new__(cls)
+        for k, t in ty.fields.items():
+            v = make_indexed(interp, t, '%s.%s' % (base, k), idx) if isinstance(t, Ty) else t
+            object.__setattr__(obj, k, v)
+        if ty.invariant is not None:
+            st.assume(interp.truth(interp.call(ty.invariant, [obj], {})))
+        return obj
+    if isinstance(ty, FixedList):
+        vals = [make_indexed(interp, t, '%s[%d]' % (base, i), idx) for i, t in enumerate(ty.elems)]
+        return tuple(vals) if ty.as_tuple else vals
+    if isinstance(ty, ListOf):
+        n = z3.Function(base + '.len', *(sorts + [z3.IntSort()]))(*idx)
+        st.assume(n >= ty.min_len)
+        elem_ty = ty.elem
+
+        def elem(interp2, idx_term, base=base, idx=idx):
+            return make_indexed(interp2, elem_ty, base + '[]', idx + (idx_term,))
+
+        out = SList(n, elem, '%s(%s)' % (base, ','.join(z3.simplify(i).sexpr() for i in idx)))
+        out.key = (base, idx)
+        return out
     raise Unsupported('indexed element of type %r' % (ty,))
 
 
@@ -392,37 +435,12 @@ def _iface_lookup(iface, table, name):
 
 
 def _indexed_scalar(interp, o, name, ty):
-    """Scalar attribute of an indexed opaque: function of the index."""
+    """Attribute of an indexed opaque: function of the index."""
     idx = o._pv_index
-    st = interp.st
     base = '%s.%s' % (o._pv_uid, name)
-    sorts = [z3.IntSort()] * len(idx)
-    if isinstance(ty, _Int):
-        t = z3.Function(base, *(sorts + [z3.IntSort()]))(*idx)
-        if ty.lo is not None:
-            st.assume(t >= ty.lo)
-        if ty.hi is not None:
-            st.assume(t <= ty.hi)
-        return SInt(t)
-    if isinstance(ty, _Bool):
-        return SBool(z3.Function(base, *(sorts + [z3.BoolSort()]))(*idx))
-    if isinstance(ty, _Str):
-        return SStr(z3.Function(base, *(sorts + [z3.StringSort()]))(*idx))
-    if isinstance(ty, Opt):
-        isn = z3.Function(base + '.is_none', *(sorts + [z3.BoolSort()]))(*idx)
-        return SOpt(isn, _indexed_scalar(interp, o, name, ty.inner))
     if isinstance(ty, Involution):
         return ty.make_attr(interp, base, o, index=idx)
-    if isinstance(ty, Iface):
-        iface = ty.iface() if isinstance(ty.iface, types.FunctionType) else ty.iface
-        return new_opaque(interp, iface, base, index=idx)
-    if isinstance(ty, OneOf):
-        t = z3.Function(base + '.idx', *(sorts + [z3.IntSort()]))(*idx)
-        st.assume(z3.And(t >= 0, t < len(ty.values)))
-        return SChoice(t, ty.values) if len(ty.values) > 1 else ty.values[0]
-    if isinstance(ty, Const):
-        return ty.value
-    raise Unsupported('indexed attribute of type %r' % (ty,))
+    return make_indexed(interp, ty, base, idx)
 
 
 class Registry:
